@@ -74,8 +74,21 @@ fn needs_str(f: &str) -> bool {
     matches!(f, "is_str_latin1" | "is_str_bidi" | "check_str_for_latin1_and_bidi" | "str_latin1_up_to" | "convert_str_to_utf16")
 }
 
+const LATIN1: &[u32] = &[0x61, 0x20, 0x80, 0xA0, 0xBF, 0xC0, 0xE9, 0xFF];
+const LTR: &[u32] = &[0x61, 0x100, 0x58F, 0x800, 0x900, 0x2000, 0x20AC, 0x4E00, 0xD7FF, 0xE000, 0xFB00, 0xFB50 - 1, 0xFFFD, 0x10000, 0x107FF, 0x11000, 0x1E7FF, 0x1F000, 0x1F4A9, 0x10FFFF];
+
 pub fn draw(rng: &mut Rng, run_index: u64) -> MemFnSpec {
     let func = FUNCS[(run_index / 16) as usize % FUNCS.len()].to_string();
+    // alphabet of the run: everything / Latin1 only / left-to-right only; the
+    // restricted ones get (at most) one character of the full alphabet planted,
+    // so that the answer hangs on a single unit at a PRNG-chosen position
+    let mode = rng.below(3);
+    let alphabet: &[u32] = match mode {
+        0 => CHARS,
+        1 => LATIN1,
+        _ => LTR,
+    };
+    let mut plant_at: Option<usize> = None;
     let mut src: Vec<u16> = Vec::new();
     if is_u16_func(&func) {
         let n = rng.pick(&[0usize, 1, 3, 7, 8, 9, 15, 16, 17, 31, 33, 47, 64, 65, 100]);
@@ -83,12 +96,24 @@ pub fn draw(rng: &mut Rng, run_index: u64) -> MemFnSpec {
         while src.len() < n {
             let u: u16 = if rng.below(100) < ascii {
                 rng.pick(&[0x61u16, 0x20, 0x7F, 0x00])
-            } else if rng.chance(1, 4) {
+            } else if mode == 0 && rng.chance(1, 4) {
                 rng.pick(&[0xD800u16, 0xDBFF, 0xDC00, 0xDFFF, 0xD83D, 0xDCA9, 0xD802, 0xD83A, 0xD803])
             } else {
-                rng.pick(CHARS).min(0xFFFF) as u16
+                let c = rng.pick(alphabet);
+                if c > 0xFFFF {
+                    src.push((0xD7C0 + (c >> 10)) as u16);
+                    (0xDC00 + (c & 0x3FF)) as u16
+                } else {
+                    c as u16
+                }
             };
             src.push(u);
+        }
+        if mode != 0 && !src.is_empty() && rng.chance(2, 3) {
+            let at = rng.below(src.len());
+            if !(0xD800..0xE000).contains(&src[at]) {
+                src[at] = rng.pick(CHARS).min(0xFFFF) as u16;
+            }
         }
     } else {
         // UTF-8-ish bytes: ASCII runs, well-formed characters, truncated ones,
@@ -100,10 +125,16 @@ pub fn draw(rng: &mut Rng, run_index: u64) -> MemFnSpec {
             if rng.below(100) < ascii {
                 b.push(rng.pick(&[b'a', b' ', 0x7F, 0x00, 0x1B, 0x0E]));
             } else {
-                let c = char::from_u32(rng.pick(CHARS)).unwrap_or('a');
+                let plant = mode != 0 && plant_at.is_none() && rng.chance(1, 8);
+                if plant {
+                    plant_at = Some(b.len());
+                }
+                let c = char::from_u32(rng.pick(if plant { CHARS } else { alphabet })).unwrap_or('a');
                 let mut buf = [0u8; 4];
                 let e = c.encode_utf8(&mut buf).as_bytes();
-                if !needs_str(&func) && rng.chance(1, 5) && e.len() > 1 {
+                if mode != 0 {
+                    b.extend_from_slice(e);
+                } else if !needs_str(&func) && rng.chance(1, 5) && e.len() > 1 {
                     let k = rng.range(1, e.len() - 1);
                     b.extend_from_slice(&e[..k]);
                 } else if !needs_str(&func) && rng.chance(1, 12) {
@@ -113,7 +144,7 @@ pub fn draw(rng: &mut Rng, run_index: u64) -> MemFnSpec {
                 }
             }
         }
-        if !needs_str(&func) && !b.is_empty() && rng.chance(1, 2) {
+        if mode == 0 && !needs_str(&func) && !b.is_empty() && rng.chance(1, 2) {
             let l = b.len();
             b[l - 1] = (run_index % 256) as u8;
         }
@@ -138,7 +169,7 @@ pub fn draw(rng: &mut Rng, run_index: u64) -> MemFnSpec {
     MemFnSpec { func, src, src_off: rng.below(16) as u8, dst_off: rng.below(16) as u8, slack: rng.pick(&[0u8, 0, 0, 1, 5, 16]) }
 }
 
-pub fn execute(spec: &MemFnSpec) -> Vec<Viol> {
+pub fn execute(spec: &MemFnSpec) -> (Vec<Viol>, u64) {
     let mut v: Vec<Viol> = Vec::new();
     let f = spec.func.as_str();
     let n = spec.src.len();
@@ -162,131 +193,140 @@ pub fn execute(spec: &MemFnSpec) -> Vec<Viol> {
     for b in d8.slice_mut().iter_mut() {
         *b = b'x';
     }
-    // (index-like result, upper bound) or None
-    let r = guard(|| -> Option<(usize, usize)> {
-        match f {
-            "is_ascii" => {
-                mem::is_ascii(s8);
-                None
-            }
-            "is_utf8_latin1" => {
-                mem::is_utf8_latin1(s8);
-                None
-            }
-            "is_utf8_bidi" => {
-                mem::is_utf8_bidi(s8);
-                None
-            }
-            "check_utf8_for_latin1_and_bidi" => {
-                let _ = mem::check_utf8_for_latin1_and_bidi(s8);
-                None
-            }
-            "utf8_latin1_up_to" => Some((mem::utf8_latin1_up_to(s8), n)),
-            "utf8_valid_up_to" => Some((Encoding::utf8_valid_up_to(s8), n)),
-            "ascii_valid_up_to" => Some((Encoding::ascii_valid_up_to(s8), n)),
-            "iso_2022_jp_ascii_valid_up_to" => Some((Encoding::iso_2022_jp_ascii_valid_up_to(s8), n)),
-            "is_str_latin1" => {
-                mem::is_str_latin1(std::str::from_utf8(s8).ok()?);
-                None
-            }
-            "is_str_bidi" => {
-                mem::is_str_bidi(std::str::from_utf8(s8).ok()?);
-                None
-            }
-            "check_str_for_latin1_and_bidi" => {
-                let _ = mem::check_str_for_latin1_and_bidi(std::str::from_utf8(s8).ok()?);
-                None
-            }
-            "str_latin1_up_to" => Some((mem::str_latin1_up_to(std::str::from_utf8(s8).ok()?), n)),
+    // what the call returned: an index / count with its upper bound, a flag
+    // value, and how much of each destination is defined output
+    #[derive(Default)]
+    struct R {
+        idx: Option<(usize, usize)>,
+        flag: u64,
+        out8: usize,
+        out16: usize,
+        text: String,
+    }
+    fn idx(i: usize, bound: usize) -> R {
+        R { idx: Some((i, bound)), ..R::default() }
+    }
+    fn flag(v: u64) -> R {
+        R { flag: v + 1, ..R::default() }
+    }
+    fn lb(v: mem::Latin1Bidi) -> R {
+        flag(match v {
+            mem::Latin1Bidi::Latin1 => 0,
+            mem::Latin1Bidi::LeftToRight => 1,
+            mem::Latin1Bidi::Bidi => 2,
+        })
+    }
+    let r = guard(|| -> Option<R> {
+        Some(match f {
+            "is_ascii" => flag(mem::is_ascii(s8) as u64),
+            "is_utf8_latin1" => flag(mem::is_utf8_latin1(s8) as u64),
+            "is_utf8_bidi" => flag(mem::is_utf8_bidi(s8) as u64),
+            "check_utf8_for_latin1_and_bidi" => lb(mem::check_utf8_for_latin1_and_bidi(s8)),
+            "utf8_latin1_up_to" => idx(mem::utf8_latin1_up_to(s8), n),
+            "utf8_valid_up_to" => idx(Encoding::utf8_valid_up_to(s8), n),
+            "ascii_valid_up_to" => idx(Encoding::ascii_valid_up_to(s8), n),
+            "iso_2022_jp_ascii_valid_up_to" => idx(Encoding::iso_2022_jp_ascii_valid_up_to(s8), n),
+            "is_str_latin1" => flag(mem::is_str_latin1(std::str::from_utf8(s8).ok()?) as u64),
+            "is_str_bidi" => flag(mem::is_str_bidi(std::str::from_utf8(s8).ok()?) as u64),
+            "check_str_for_latin1_and_bidi" => lb(mem::check_str_for_latin1_and_bidi(std::str::from_utf8(s8).ok()?)),
+            "str_latin1_up_to" => idx(mem::str_latin1_up_to(std::str::from_utf8(s8).ok()?), n),
             "convert_str_to_utf16" => {
-                let d = d16.slice_mut();
-                Some((mem::convert_str_to_utf16(std::str::from_utf8(s8).ok()?, d), n + slack))
+                let w = mem::convert_str_to_utf16(std::str::from_utf8(s8).ok()?, d16.slice_mut());
+                R { out16: w, ..idx(w, l16) }
             }
             "convert_utf8_to_utf16" => {
-                let d = d16.slice_mut();
-                Some((mem::convert_utf8_to_utf16(s8, d), n + 1 + slack))
+                let w = mem::convert_utf8_to_utf16(s8, d16.slice_mut());
+                R { out16: w, ..idx(w, l16) }
             }
-            "convert_utf8_to_utf16_without_replacement" => {
-                let d = d16.slice_mut();
-                mem::convert_utf8_to_utf16_without_replacement(s8, d).map(|w| (w, n + slack))
-            }
+            "convert_utf8_to_utf16_without_replacement" => match mem::convert_utf8_to_utf16_without_replacement(s8, d16.slice_mut()) {
+                Some(w) => R { out16: w, ..idx(w, l16) },
+                None => flag(7),
+            },
             "convert_latin1_to_utf16" => {
-                let d = d16.slice_mut();
-                mem::convert_latin1_to_utf16(s8, d);
-                None
+                mem::convert_latin1_to_utf16(s8, d16.slice_mut());
+                R { out16: n, ..R::default() }
             }
             "convert_latin1_to_utf8" => {
-                let d = d8.slice_mut();
-                Some((mem::convert_latin1_to_utf8(s8, d), 2 * n + slack))
+                let w = mem::convert_latin1_to_utf8(s8, d8.slice_mut());
+                R { out8: w, ..idx(w, l8) }
             }
             "copy_ascii_to_ascii" => {
-                let d = d8.slice_mut();
-                Some((mem::copy_ascii_to_ascii(s8, d), n))
+                let w = mem::copy_ascii_to_ascii(s8, d8.slice_mut());
+                R { out8: w, ..idx(w, n) }
             }
             "copy_ascii_to_basic_latin" => {
-                let d = d16.slice_mut();
-                Some((mem::copy_ascii_to_basic_latin(s8, d), n))
+                let w = mem::copy_ascii_to_basic_latin(s8, d16.slice_mut());
+                R { out16: w, ..idx(w, n) }
             }
             "decode_latin1" => {
                 let c = mem::decode_latin1(s8);
-                Some((c.chars().count(), n))
+                R { text: c.to_string(), ..idx(c.chars().count(), n) }
             }
-            "is_basic_latin" => {
-                mem::is_basic_latin(g16.slice());
-                None
-            }
-            "is_utf16_latin1" => {
-                mem::is_utf16_latin1(g16.slice());
-                None
-            }
-            "is_utf16_bidi" => {
-                mem::is_utf16_bidi(g16.slice());
-                None
-            }
-            "check_utf16_for_latin1_and_bidi" => {
-                let _ = mem::check_utf16_for_latin1_and_bidi(g16.slice());
-                None
-            }
-            "utf16_valid_up_to" => Some((mem::utf16_valid_up_to(g16.slice()), n)),
+            "is_basic_latin" => flag(mem::is_basic_latin(g16.slice()) as u64),
+            "is_utf16_latin1" => flag(mem::is_utf16_latin1(g16.slice()) as u64),
+            "is_utf16_bidi" => flag(mem::is_utf16_bidi(g16.slice()) as u64),
+            "check_utf16_for_latin1_and_bidi" => lb(mem::check_utf16_for_latin1_and_bidi(g16.slice())),
+            "utf16_valid_up_to" => idx(mem::utf16_valid_up_to(g16.slice()), n),
             "ensure_utf16_validity" => {
                 mem::ensure_utf16_validity(g16.slice_mut());
-                None
+                R::default()
             }
             "convert_utf16_to_utf8" => {
-                let d = d8.slice_mut();
-                Some((mem::convert_utf16_to_utf8(g16.slice(), d), 3 * n + slack))
+                let w = mem::convert_utf16_to_utf8(g16.slice(), d8.slice_mut());
+                R { out8: w, ..idx(w, l8) }
             }
             "copy_basic_latin_to_ascii" => {
-                let d = d8.slice_mut();
-                Some((mem::copy_basic_latin_to_ascii(g16.slice(), d), n))
+                let w = mem::copy_basic_latin_to_ascii(g16.slice(), d8.slice_mut());
+                R { out8: w, ..idx(w, n) }
             }
             "convert_utf16_to_str" => {
-                let d = d8.slice_mut();
-                let s = std::str::from_utf8_mut(d).ok()?;
-                Some((mem::convert_utf16_to_str(g16.slice(), s), 3 * n + slack))
+                let d = std::str::from_utf8_mut(d8.slice_mut()).ok()?;
+                let w = mem::convert_utf16_to_str(g16.slice(), d);
+                R { out8: w, ..idx(w, l8) }
             }
             _ => {
+                let mut acc = 0u64;
                 for &u in g16.slice() {
-                    mem::is_utf16_code_unit_bidi(u);
+                    acc = acc.wrapping_mul(3).wrapping_add(mem::is_utf16_code_unit_bidi(u) as u64);
                     if let Some(c) = char::from_u32(u as u32) {
-                        mem::is_char_bidi(c);
+                        acc = acc.wrapping_mul(3).wrapping_add(mem::is_char_bidi(c) as u64);
                     }
                 }
-                None
+                flag(acc)
+            }
+        })
+    });
+    // transcript of the defined results (compared across builds by C17)
+    let mut t = crate::rng::Digest::new();
+    t.bytes(f.as_bytes());
+    t.usize(n);
+    if let Ok(Some(r)) = &r {
+        t.u64(r.flag);
+        if let Some((i, _)) = r.idx {
+            t.usize(i);
+        }
+        t.bytes(&d8.slice()[..r.out8.min(l8)]);
+        for &u in d16.slice()[..r.out16.min(l16)].iter() {
+            t.u64(u as u64);
+        }
+        t.bytes(r.text.as_bytes());
+        if f == "ensure_utf16_validity" {
+            for &u in g16.slice() {
+                t.u64(u as u64);
             }
         }
-    });
+    }
     match r {
         Err(_) => v.push(viol("C06", "panic-in-contract", format!("mem/validator function {} panicked on a {}-unit source within its documented preconditions: {}", f, n, take_panic()))),
-        Ok(Some((got, bound))) => {
+        Ok(Some(R { idx: Some((got, bound)), .. })) => {
             if got > bound {
                 v.push(viol("C06", "result-out-of-bounds", format!("{} returned {} for a bound of {}", f, got, bound)));
             }
         }
-        Ok(None) => {}
+        Ok(_) => {}
     }
     if !d8.intact() || !d16.intact() || !g16.src_intact() {
         v.push(viol("C06", "canary", format!("{} wrote outside its destination", f)));
     }
-    v
+    (v, t.finish())
 }
